@@ -7,5 +7,6 @@ D_prev       == {<<"ignores_header", "prev">>}
 D_entry      == {<<"ignores_header", "entry">>}
 D_streamdata == {<<"ignores_header", "streamdata">>}
 D_scan       == {<<"ignores_header", "scan">>}
+MC_AllHeaders == 0..1019
 D_naive      == {<<"naive_header_search", "header">>}
 =============================================================================
